@@ -30,15 +30,27 @@ def penalty_case(prog, ic, dc, pi, pd, maxcycles=160):
     iref = RefCache(ib, bb, ways, "wb", policy, pi)
     dref = RefCache(dib, dbb, dways, kind, dpolicy, pd)
     pm = sim.state.performance_metrics
+    # the same program without caches, advanced in lock-step: miss penalties are added to the cycle counter only — which
+    # instruction retires in which STEP (the documented schedule) must not depend on caches or penalties
+    plain = rv.make_sim(rv.FIVE, prog, c03.PROG_REGS, c03.PROG_WORDS)
     n = 0
     total_extra = 0
     while not sim.is_done() and n < maxcycles:
         c0, f0, d0 = pm.cycles, len(flog), len(dlog)
+        plain_fault = False
+        try:
+            plain.step()
+        except rv.InstructionExecutionException:
+            plain_fault = True
         try:
             sim.step()
         except rv.InstructionExecutionException:
             break
         n += 1
+        if not plain_fault:
+            r1, r0 = rv.retire_addr(sim), rv.retire_addr(plain)
+            if r1 != r0 or sim.is_done() != plain.is_done():
+                return [("schedule-with-caches", f"step {n}: retires {r1} (done={sim.is_done()}) with the caches and penalties {pi}/{pd}, {r0} (done={plain.is_done()}) without caches")], iref, dref, total_extra
         extra = 0
         for a, _o in flog[f0:]:
             extra += iref.access(a, False, True)[1]
